@@ -23,6 +23,8 @@ for f in sorted(glob.glob(os.path.join(V, 'selftest', 'mutants', '*.diff'))):
     items.append(dict(name='mutant:' + os.path.basename(f)[:-5], patch=f, reverse=False, kind='mutant', expect=exp))
 for f in sorted(glob.glob(os.path.join(V, 'selftest', 'benign', '*.diff'))):
     items.append(dict(name='benign:' + os.path.basename(f)[:-5], patch=f, reverse=False, kind='benign', expect=[]))
+for f in sorted(glob.glob(os.path.join(V, 'selftest', 'refactor', '*.diff'))):
+    items.append(dict(name='refactor:' + os.path.basename(f)[:-5], patch=f, reverse=False, kind='refactor', expect=[]))
 for f in sorted(glob.glob(os.path.join(V, 'triage', 'planned_fixes', '00*.patch'))):
     n = os.path.basename(f)[:4]
     items.append(dict(name='revert:D' + n[2:], patch=f, reverse=True, kind='revert', expect=FIXPROPS[n]))
@@ -70,11 +72,16 @@ for o in out:
         print(f"{o['name']:45s} ERROR {o['error'][:100]}"); bad += 1; continue
     viol = sorted(p for p, r in o['results'].items() if r['verdict'] == 'VIOLATION')
     inc = sorted(p for p, r in o['results'].items() if r['verdict'] == 'inconclusive')
+    ACC = set(json.load(open(os.path.join(V, 'selftest', 'accepted_inconclusive.json'))))
     if o['kind'] == 'benign':
         ok = not viol and not inc
+    elif o['kind'] == 'refactor':
+        ok = not viol            # 'not decided' is allowed for re-designs; a VIOLATION on behaviour-preserving code never
+    elif o['name'] in ACC:
+        ok = all((p in viol or p in inc) for p in o['expect'] if p in props)
     else:
         ok = all(p in viol for p in o['expect'] if p in props) if o['expect'] else bool(viol)
-    status = 'ok  ' if ok else 'MISS' if o['kind'] != 'benign' else 'FALSE-ALARM'
+    status = 'ok  ' if ok else 'MISS' if o['kind'] not in ('benign', 'refactor') else 'FALSE-ALARM'
     if not ok: bad += 1
     print(f"{status} {o['name']:45s} compiles={o.get('compiles')} expect={','.join(o['expect']) or '-':12s} VIOLATION={','.join(viol) or '-'} inconclusive={','.join(inc) or '-'}")
     summary.append(dict(name=o['name'], kind=o['kind'], expect=o['expect'], compiles=o.get('compiles'), violation=viol, inconclusive=inc, ok=ok,
